@@ -157,6 +157,72 @@ def _same(it, a, b):
 
 R.spec_funcs["same"] = _same
 
+# ------------------------------------------------------------------------------------------------- jsonify_python_specific_types: booleans / None at ANY depth
+HY = "schemathesis.specs.openapi._hypothesis:"
+Leaf = OneOf(Bool, NoneT, Str)
+Inner = OneOf(Bool, NoneT, Str, ListOf(Leaf, [0, 1]), DictOf(optional={"c": Leaf}))
+Elem = OneOf(Bool, NoneT, Str, ListOf(Inner, [0, 1, 2]), DictOf(optional={"c": Inner}))
+
+
+def _jsonified(it, v):
+    """The JSON spelling of a generated value: true / false / null for booleans and None at any depth, everything else unchanged (specification, independent of the code)."""
+    import z3
+    from pyvc.values import SBool, wrap
+
+    if isinstance(v, dict):
+        return {k: _jsonified(it, x) for k, x in v.items()}
+    if isinstance(v, list):
+        return [_jsonified(it, x) for x in v]
+    if isinstance(v, bool):
+        return "true" if v else "false"
+    if isinstance(v, SBool):
+        return wrap(z3.If(v.z, z3.StringVal("true"), z3.StringVal("false")))
+    if v is None:
+        return "null"
+    return v
+
+
+R.spec_funcs["jsonified"] = _jsonified
+R.spec_funcs["deep"] = lambda it, v: it.B._deepcopy(v, {})
+R.contract(
+    HY + "jsonify_python_specific_types",
+    prop="C06",
+    args={"value": DictOf(optional={"a": Elem, "b": Leaf})},
+    ensures={
+        # booleans and null are sent in their JSON spelling wherever they occur (query arrays and objects included); nothing else is touched
+        "json_spelling_at_any_depth": "result == jsonified(old(deep(value)))",
+        "same_object_returned": "result is value",
+    },
+    bounded_note="values nested up to depth 3, lists up to 2 elements",
+    max_paths=20000,
+)
+
+# ------------------------------------------------------------------------------------------------- quote_all: path values are percent-encoded, '.' and '..' made inert
+def _quote_plus(it, a, k=None):
+    """E5 urllib.parse.quote_plus as an uninterpreted function str -> str (percent-encoding, inverted by unquote_plus)."""
+    import z3
+    from pyvc.values import wrap, z3_of
+
+    return wrap(z3.Function("urllib.quote_plus", z3.StringSort(), z3.StringSort())(z3_of(a[0])))
+
+
+R.extern["urllib.parse.quote_plus"] = _quote_plus
+R.spec_funcs["quoted"] = lambda it, s_: _quote_plus(it, [s_])
+PathVal = OneOf(Str, Int, Bool, NoneT)
+R.contract(
+    HY + "quote_all",
+    prop="C06",
+    args={"parameters": KeyedDict(Str, PathVal, sizes=(0, 1, 2))},
+    ensures={
+        # every path variable is replaced by its percent-encoded value; '.' and '..' (which a URL normaliser would resolve) are encoded explicitly
+        "strings_percent_encoded_dots_made_inert": "all((result[k] == ('%2E' if old(dict(parameters))[k] == '.' else ('%2E%2E' if old(dict(parameters))[k] == '..' else quoted(old(dict(parameters))[k])))) "
+                                                   "if is_str(old(dict(parameters))[k]) else same(result[k], old(dict(parameters))[k]) for k in old(dict(parameters)))",
+        "no_key_added_or_removed": "length(result) == old(length(parameters)) and result is parameters",
+    },
+    bounded_note="up to 2 path parameters",
+)
+R.spec_funcs["is_str"] = lambda it, v: isinstance(v, str) or type(v).__name__ == "SStr"
+
 def _n_wire_of(value):
     raise NotImplementedError
 
@@ -172,7 +238,17 @@ def _n_same(a, b):
 
 
 # native replay: prepare_url (trusted, pure) is replaced by an injective stand-in because the model's Case has no operation graph; requests is imported by serialize_case only for typing
-NATIVE = {"helpers": {"url_of": _n_url, "is_empty_dict": lambda v: isinstance(v, dict) and len(v) == 0, "same": _n_same},
+def _n_jsonified(v):
+    if isinstance(v, dict):
+        return {k: _n_jsonified(x) for k, x in v.items()}
+    if isinstance(v, list):
+        return [_n_jsonified(x) for x in v]
+    if isinstance(v, bool):
+        return "true" if v else "false"
+    return "null" if v is None else v
+
+
+NATIVE = {"helpers": {"jsonified": _n_jsonified, "deep": __import__("copy").deepcopy, "url_of": _n_url, "is_empty_dict": lambda v: isinstance(v, dict) and len(v) == 0, "same": _n_same},
           "patch": {"schemathesis.transport.prepare:prepare_url": _n_url, "schemathesis.transport.requests:prepare_url": _n_url}}
 
 LEVEL_TEXT = ("Deductive: each style encoder against the wire form of the OpenAPI serialization table, serialize_case's query/cookie/method/url pass-through; "
